@@ -248,3 +248,26 @@ func (o *Obligation) Passed() bool {
 	}
 	return o.Status == "unsat"
 }
+
+// solveSeeds re-runs one undecided obligation serially with different solver seeds.
+func solveSeeds(o *Obligation, timeoutS int) {
+	type cfg struct {
+		name string
+		args []string
+	}
+	var cfgs []cfg
+	for _, seed := range []int{1, 7, 42} {
+		cfgs = append(cfgs, cfg{fmt.Sprintf("z3-5.1.0(seed %d)", seed), []string{"z3-new", fmt.Sprintf("-T:%d", timeoutS), fmt.Sprintf("smt.random_seed=%d", seed), fmt.Sprintf("sat.random_seed=%d", seed), o.SMTPath}})
+		cfgs = append(cfgs, cfg{fmt.Sprintf("z3-4.8.12(seed %d)", seed), []string{"z3", fmt.Sprintf("-T:%d", timeoutS), fmt.Sprintf("smt.random_seed=%d", seed), fmt.Sprintf("sat.random_seed=%d", seed), o.SMTPath}})
+	}
+	cfgs = append(cfgs, cfg{"cvc5-1.0", []string{"cvc5", "--dt-nested-rec", fmt.Sprintf("--tlimit=%d", timeoutS*1000), o.SMTPath}})
+	for _, c := range cfgs {
+		s := Solver{Name: c.name, Cmd: func(string, int) []string { return c.args }}
+		st, out, dur := runSolver(s, o.SMTPath, timeoutS)
+		o.TimeS += dur
+		if st == "unsat" || st == "sat" {
+			o.Status, o.Solver, o.Output = st, c.name, out
+			return
+		}
+	}
+}
